@@ -1,5 +1,6 @@
 from __future__ import annotations
 
+import copy
 import importlib
 
 import numpy as np
@@ -16,6 +17,33 @@ def _rng_from_bitgen(bitgen):
     backend_name = typename(bitgen).split(".")[0]
     backend_lib = importlib.import_module(backend_name)
     return backend_lib.random.default_rng(bitgen)
+
+
+def _snapshot_rng(rng):
+    """A private copy of a generator / RandomState / bit generator.
+
+    Random expressions derive their per-block seeds from their ``rng`` operand.
+    An expression can be re-instantiated at any time (every rewrite that
+    replaces one of its dependencies rebuilds it) and must then derive the
+    *same* seeds, so the operand has to be a frozen snapshot of the state at
+    construction time rather than the caller's live, ever-advancing object.
+    """
+    return copy.deepcopy(rng)
+
+
+def _advance_rng(rng, n_blocks):
+    """Consume from the caller's live generator exactly what a random
+    expression's seed derivation consumes from its snapshot, so that the next
+    draw from the same generator gets fresh seeds."""
+    if isinstance(rng, np.random.RandomState):  # the state behind RandomState.choice
+        rng.bytes(16)
+        return
+    numpy_state = getattr(rng, "_numpy_state", None)  # dask_array RandomState
+    if numpy_state is not None:
+        numpy_state.bytes(16)
+        return
+    bit_generator = getattr(rng, "_bit_generator", rng)  # dask_array Generator or a bare bit generator
+    bit_generator._seed_seq.spawn(n_blocks)
 
 
 def _shuffle(bit_generator, x, axis=0):
@@ -69,16 +97,23 @@ def _wrap_func(rng, funcname, *args, size=None, chunks="auto", extra_chunks=(), 
         args = tuple(_broadcast_array_arg(arg, size, target_chunks) for arg in args)
         kwargs = {k: _broadcast_array_arg(v, size, target_chunks) for k, v in kwargs.items()}
 
+    # The expression owns a frozen snapshot of the generator (see
+    # ``_snapshot_rng``); the live generator is advanced below by what the
+    # expression's seed derivation consumed.
+    frozen = _snapshot_rng(rng)
+
     # Dispatch to specific subclass if available
     if funcname == "normal":
         loc = kwargs.pop("loc", args[0] if len(args) > 0 else 0.0)
         scale = kwargs.pop("scale", args[1] if len(args) > 1 else 1.0)
-        return new_collection(RandomNormal(rng, size, chunks, extra_chunks, loc, scale))
+        expr = RandomNormal(frozen, size, chunks, extra_chunks, loc, scale)
     elif funcname == "poisson":
         lam = args[0] if len(args) > 0 else kwargs.pop("lam", 1.0)
-        return new_collection(RandomPoisson(rng, size, chunks, extra_chunks, lam))
+        expr = RandomPoisson(frozen, size, chunks, extra_chunks, lam)
+    else:
+        # Fallback: use generic Random with args/kwargs tuples
+        from ._expr import Random
 
-    # Fallback: use generic Random with args/kwargs tuples
-    from ._expr import Random
-
-    return new_collection(Random(rng, funcname, size, chunks, extra_chunks, args, kwargs))
+        expr = Random(frozen, funcname, size, chunks, extra_chunks, args, kwargs)
+    _advance_rng(rng, len(expr._info[2]))
+    return new_collection(expr)
